@@ -209,8 +209,15 @@ class SqlalchemyRender:
             }
             arg = self.to_expression(t.args[0])
 
-            method = opmap[t.op.upper()]
-            col = getattr(arg, method)()
+            if t.op == '-' and isinstance(t.args[0], ast.Constant) and t.args[0].alias is None \
+                    and isinstance(t.args[0].value, (int, float)) and str(t.args[0].value).startswith('-'):
+                # minus over a negative number: `--5` would be read as the start of a comment
+                col = -sa.sql.elements.Grouping(sa.literal(t.args[0].value))
+                if not t.alias:
+                    col = col.label(str(t.args[0].value))
+            else:
+                method = opmap[t.op.upper()]
+                col = getattr(arg, method)()
             if t.alias:
                 alias = self.get_alias(t.alias)
                 col = col.label(alias)
